@@ -26,24 +26,26 @@ type escXfer struct {
 
 type escBank struct {
 	module sdk.Int
+	other  sdk.Int // module holdings in any other denomination (every record of the universe is in escDenom)
 	bal    map[string]sdk.Int
 	log    []escXfer
 	short  bool // a module->account transfer exceeded the module balance
 }
 
-func (b *escBank) total(amt sdk.Coins) sdk.Int {
-	t := sdk.ZeroInt()
+func (b *escBank) total(amt sdk.Coins) (sdk.Int, sdk.Int) {
+	t, o := sdk.ZeroInt(), sdk.ZeroInt()
 	for _, c := range amt {
 		if c.Denom != escDenom {
-			panic("unexpected denom in bank transfer")
+			o = o.Add(c.Amount)
+			continue
 		}
 		t = t.Add(c.Amount)
 	}
-	return t
+	return t, o
 }
 
 func (b *escBank) SendCoinsFromAccountToModule(ctx sdk.Context, sender sdk.AccAddress, module string, amt sdk.Coins) error {
-	a := b.total(amt)
+	a, o := b.total(amt) // senders are assumed to hold enough of any other denomination
 	key := sender.String()
 	cur, ok := b.bal[key]
 	if !ok {
@@ -57,16 +59,17 @@ func (b *escBank) SendCoinsFromAccountToModule(ctx sdk.Context, sender sdk.AccAd
 	}
 	b.bal[key] = cur.Sub(a)
 	b.module = b.module.Add(a)
+	b.other = b.other.Add(o)
 	b.log = append(b.log, escXfer{true, key, a})
 	return nil
 }
 
 func (b *escBank) SendCoinsFromModuleToAccount(ctx sdk.Context, module string, rcpt sdk.AccAddress, amt sdk.Coins) error {
-	a := b.total(amt)
+	a, o := b.total(amt)
 	if module != types.ModuleName {
 		panic("transfer from a module other than escrow")
 	}
-	if b.module.LT(a) {
+	if b.module.LT(a) || b.other.LT(o) {
 		b.short = true
 		return types.ErrInvalidPayment
 	}
@@ -77,6 +80,7 @@ func (b *escBank) SendCoinsFromModuleToAccount(ctx sdk.Context, module string, r
 	}
 	b.bal[key] = cur.Add(a)
 	b.module = b.module.Sub(a)
+	b.other = b.other.Sub(o)
 	b.log = append(b.log, escXfer{false, key, a})
 	return nil
 }
@@ -127,7 +131,7 @@ func escNewEnv() *escEnv {
 	H := verif_I64("H")
 	verif_Assume(verif_And(H >= 1, H < 1<<40))
 	e := &escEnv{ctx: verif_NewContext(H, skey), H: H}
-	e.bank = &escBank{module: sdk.ZeroInt(), bal: map[string]sdk.Int{}}
+	e.bank = &escBank{module: sdk.ZeroInt(), other: sdk.ZeroInt(), bal: map[string]sdk.Int{}}
 	for i := 0; i < 5; i++ {
 		e.bank.bal[verif_Addr(i)] = escAmount("wallet")
 	}
@@ -222,6 +226,7 @@ func escCheck(e *escEnv, pre, post escState, preModule sdk.Int, focus types.Acco
 	// C01: module balance = sum of recorded balances (+ R for everything outside the universe)
 	verif_Assert(!e.bank.short, "C01 escrow module always holds enough to pay out")
 	verif_Assert(e.bank.module.Equal(escSum(post).Add(e.R)), "C01 module balance equals the sum of recorded balances")
+	verif_Assert(e.bank.other.IsZero(), "C01 module balance equals the sum of recorded balances") // per denomination: no record is in another one
 	// C03 record clauses
 	for id, a := range post.accs {
 		if a.State != types.AccountOpen {
@@ -350,7 +355,23 @@ func escRun(npay int, op int) {
 		return
 	case 1: // AccountDeposit
 		dep := escAmount("deposit")
-		err = e.k.AccountDeposit(e.ctx, escA, escCoin(dep))
+		coin := escCoin(dep)
+		if verif_Choice("deposit-denom", 2) == 1 {
+			coin.Denom = "ujunk" // not the account's denomination
+		}
+		panicked := false
+		func() {
+			defer func() {
+				if recover() != nil {
+					panicked = true
+				}
+			}()
+			err = e.k.AccountDeposit(e.ctx, escA, coin)
+		}()
+		if panicked {
+			verif_Reach("deposit-panicked") // the transaction is rolled back as a whole by the application
+			return
+		}
 		post := escSnapshot(e)
 		if err == nil {
 			verif_Reach("deposited")
